@@ -340,10 +340,14 @@ func (w *World) ack(a Action) (string, string) {
 	if !ok || a.C != src {
 		return "err", "unknown packet"
 	}
-	if rp.ack == nil {
-		return "err", "no acknowledgement written yet"
-	}
 	dst := endChain(peer(a.E))
+	ackBz, ackV2 := rp.ack, rp.ackV2
+	if ackBz == nil {
+		// nothing was written on the destination (premature relay, or the packet timed out): the relayer
+		// still submits the message, claiming a success acknowledgement, with the proof for the (empty) ack path
+		ackBz = successAck
+		ackV2 = channeltypesv2.Acknowledgement{AppAcknowledgements: [][]byte{successAck}}
+	}
 	if r, es := w.updateClient(a.E); r != "ok" {
 		return "err", "client update: " + es
 	}
@@ -351,11 +355,11 @@ func (w *World) ack(a Action) (string, string) {
 	if rp.abs.Proto == "v1" {
 		p := rp.v1
 		proof, ph := w.ch[dst].QueryProof(host.PacketAcknowledgementKey(p.DestinationPort, p.DestinationChannel, p.Sequence))
-		msg = channeltypes.NewMsgAcknowledgement(p, rp.ack, proof, ph, w.addr[src][a.Rl].String())
+		msg = channeltypes.NewMsgAcknowledgement(p, ackBz, proof, ph, w.addr[src][a.Rl].String())
 	} else {
 		p := rp.v2
 		proof, ph := w.ch[dst].QueryProof(hostv2.PacketAcknowledgementKey(p.DestinationClient, p.Sequence))
-		msg = channeltypesv2.NewMsgAcknowledgement(p, rp.ackV2, proof, ph, w.addr[src][a.Rl].String())
+		msg = channeltypesv2.NewMsgAcknowledgement(p, ackV2, proof, ph, w.addr[src][a.Rl].String())
 	}
 	_, res, es := w.sendTx(src, a.Rl, msg)
 	return res, es
